@@ -39,7 +39,7 @@ theorem C07_crash_in_append_touches_no_entry (c : Cfg) (p : Proc) (fd : Bool) (t
   cases hi : p.inst with
   | none => simp [step, hi, withInst] at hc
   | some i =>
-    simp only [step, hi, withInst] at hc ⊢
+    simp only [step, hi, withInst, (by decide : ¬ (0 : Nat) = 8), if_false] at hc ⊢
     have hf := filesExt_appendForTopic_fault c { p with inst := some { i with idxLog := [] } } { i with idxLog := [] } t pay
     have hn := appendForTopic_ne_crashed c { p with inst := some { i with idxLog := [] } } { i with idxLog := [] } t pay none
     generalize appendForTopic c { p with inst := some { i with idxLog := [] } } { i with idxLog := [] } t pay (some ⟨0, 0⟩) = r at hf hc ⊢
@@ -76,16 +76,18 @@ theorem C07_crash_in_read_touches_no_entry (c : Cfg) (p : Proc) (kind n : Nat) (
     | none => simp [step, hi, withInst]
     | some i =>
       simp only [step, hi, withInst]
-      split
-      · rw [files_dieWith]; simp [files_readNext]
-      · simp [files_readNext]
+      repeat' split
+      all_goals first
+        | (rw [files_dieWith]; simp [files_readNext])
+        | simp [files_readNext]
   · cases hi : p.inst with
     | none => simp [step, hi, withInst]
     | some i =>
       simp only [step, hi, withInst]
-      split
-      · rw [files_dieWith]; simp [files_batchRead]
-      · simp [files_batchRead]
+      repeat' split
+      all_goals first
+        | (rw [files_dieWith]; simp [files_batchRead])
+        | simp [files_batchRead]
 
 /-- a process death between two operations leaves every WAL file untouched -/
 theorem C07_kill_touches_no_entry (c : Cfg) (p : Proc) : (step c p .kill).1.files = p.files := by
